@@ -3,12 +3,13 @@ from vlib import core
 from checks import mergegen as g
 from checks import mergelib as m
 from checks import mergemech
+from checks import richmerge
 
 META = {
     "harness_bins": ["nkeval"],
     "extract": "C05.v",
     "technique": "Coq proof of commutativity/associativity/unit/idempotence of the data-merge algebra (priorities, optional/not_exported, contracts, nested records, variants, arrays, pending conflicts) for all well-formed trees; algebra tied to merge.rs by differential evaluation (extracted model vs interpreter) and the laws re-checked directly on the interpreter",
-    "level_text": "coq/Props/C05.v: for ALL well-formed data trees (any depth/width) merge is closed, commutative, associative, idempotent and has {} as unit, as equalities of denotations, hence of exports (C05_export_*). The algebra (coq/Merge/Algebra.v) is a hand-written reading of merge.rs/merge_fields/MergePriority/iter_serializable; it is tied to the code by running every generated merge expression through the extracted model and through the real interpreter (harness nkeval) and comparing exported trees / error kinds, and each law is also evaluated directly on the interpreter (both operand orders, both bracketings, a & {}, a & a). PARTIAL: recursive fields referring to siblings are outside the algebra; for them the laws are only checked on the interpreter (direct oracle), not proved. " + mergemech.MECH_TEXT_C05,
+    "level_text": "coq/Props/C05.v: for ALL well-formed data trees (any depth/width) merge is closed, commutative, associative, idempotent and has {} as unit, as equalities of denotations, hence of exports (C05_export_*). The algebra (coq/Merge/Algebra.v) is a hand-written reading of merge.rs/merge_fields/MergePriority/iter_serializable; it is tied to the code by running every generated merge expression through the extracted model and through the real interpreter (harness nkeval) and comparing exported trees / error kinds, and each law is also evaluated directly on the interpreter (both operand orders, both bracketings, a & {}, a & a). PARTIAL: recursive fields referring to siblings are outside the algebra; for them the laws are only checked on the interpreter (direct oracle), not proved: checks/richmerge.py generates triples of record literals with recursive fields (references to siblings under lambdas / lets / patterns that reuse the field names, nested and piecewise definitions whose sibling-dependency sets are equal / disjoint / included / overlapping, fields declared in one operand and defined in another, overriding by priority) and requires that the 6 operand orders x 2 bracketings export the same JSON or all fail, that x & {} and {} & x equal x and that x & x equals x. " + mergemech.MECH_TEXT_C05,
     "level_note": "Trusted: Coq kernel; extraction (ExtrOcamlBasic); the algebra's reading of the code (validated by correspondence only); generator/printer in checks/mergegen.py; contracts are modelled as predicates on exported data (validating contracts only). The well-formedness hypothesis of the theorems (sorted keys, canonical priorities, plain data inside arrays) is checked by the extracted `wf` on every generated case.",
 }
 
@@ -84,10 +85,11 @@ def run(ck):
     ck.coverage["correspondence_programs"] = len(exprs)
     ck.coverage["correspondence_disagreements"] = ndis
     ck.coverage["rule"] = "triples (a,b,c) of record expressions (literals with priorities default/none/numeric/force, optional, not_exported, contracts Number/String/Bool/Pos/Even/NonEmpty, nested records, piecewise duplicates, variants, arrays, inner merges); 7 of 8 triples from the mostly-valid stream, 1 of 8 fully random; plus priority chains: three operands defining the same field with every priority form, with/without value, optional, not_exported (exhaustive 21^3 in the thorough tier); 8 programs per triple; non-trivial = total size >= 8"
-    ck.coverage["partial"] = "recursive sibling references are not in the algebra (laws checked on the interpreter only, see C07)"
+    ck.coverage["partial"] = "recursive sibling references are not in the algebra (laws checked on the interpreter only: rich_rule; see also C07)"
     ck.trusted += ["extraction: ExtrOcamlBasic only", "harness bin nkeval (canonical outcome printer)", "generator checks/mergegen.py"]
     ck.assumptions += ["validating contracts are predicates on the exported value"]
     mergemech.run(ck, "C05")      # mechanism level: Props.C05_mech + map-order tie (checks/mergemech.py)
+    richmerge.run_laws(ck, core.harness_bin("nkeval"))      # recursive records: the laws on the interpreter only
 
 
 def setup():
@@ -101,6 +103,8 @@ def replay(ck, path):
         return mergemech.replay(ck, obj)
     if not ck.harness(["nkeval"]):
         return
+    if obj.get("rich"):
+        return richmerge.replay(ck, obj)
     lines = []
     for k in ("a&b", "b&a", "(a&b)&c", "a&(b&c)", "a&{}", "a", "a&a"):
         pass
